@@ -239,6 +239,17 @@ func (idx *HNSWIndex) Add(vector VectorNode) error {
 		return err
 	}
 
+	// Re-adding a soft-deleted ID is an update (remove + add): compact first so
+	// that the stale entry and its tombstone cannot shadow the new vector.
+	idx.mu.RLock()
+	stale := idx.deletedNodes.Contains(vector.ID())
+	idx.mu.RUnlock()
+	if stale {
+		if err := idx.Flush(); err != nil {
+			return err
+		}
+	}
+
 	// ════════════════════════════════════════════════════════════════════════
 	// PHASE 2: EXPENSIVE WORK (OUTSIDE LOCK)
 	// ════════════════════════════════════════════════════════════════════════
